@@ -101,7 +101,12 @@ def rule_c14_r2(model: Model) -> RuleResult:
     n, c = conv_nodes[0]
     args = [nz.expr(a, n) for a in c.args]
     r.sample({'convert': args})
-    if len(args) >= 2 and re.match(r'^(PHI\()?.*bound_args|.*\.arguments\[ELEM\(self\.__pane_info__\.fields\)\.name\]', args[0]) and args[1] == 'ELEM(self.__pane_info__.fields).type':
+    kws = {k.arg: nz.expr(k.value, n) for k in c.keywords}
+    if kws.get('custom') not in (None, 'None') or len(args) > 2 or any(k is None for k in kws):
+        r.fail(INIT, f"convert(..., {', '.join(f'{k}={v}'[:60] for k, v in kws.items())})", f.loc(c),
+               "the constructor converts its arguments with handlers of its own: they are applied as call-level handlers, which outrank the "
+               "handlers of nested dataclasses, so Outer(...) and Outer.from_data(...) convert the same field differently")
+    elif len(args) >= 2 and re.match(r'^(PHI\()?.*bound_args|.*\.arguments\[ELEM\(self\.__pane_info__\.fields\)\.name\]', args[0]) and args[1] == 'ELEM(self.__pane_info__.fields).type':
         r.ok()
     else:
         r.fail(INIT, f"convert({', '.join(args)[:120]})", f.loc(c), "the argument is not converted to the type of the field it is bound to")
